@@ -324,6 +324,19 @@ def p_semicolon(rng, src, state):
     if tree is None:
         return None
     cands = []
+    if rng.random() < 0.3:
+        # a useless trailing ';' right after a simple statement (before its line comment, if any)
+        simple = [x for n, fld, b in _bodies(tree) for x in b if isinstance(x, _SIMPLE)]
+        if not simple:
+            return None
+        x = rng.choice(simple)
+        lines = src.split('\n')
+        ln = lines[x.end_lineno - 1]
+        ec = len(ln.encode()[:x.end_col_offset].decode())
+        if ln[ec:].lstrip().startswith(';'):
+            return None
+        lines[x.end_lineno - 1] = ln[:ec] + rng.choice([';', ' ;', ';  ']) + ln[ec:]
+        return '\n'.join(lines)
     for n, fld, b in _bodies(tree):
         for i in range(len(b) - 1):
             if isinstance(b[i], _SIMPLE) and isinstance(b[i + 1], _SIMPLE) and b[i].end_lineno + 1 == b[i + 1].lineno:
@@ -549,7 +562,7 @@ def rename_tokens(rng, src, unique, p_nonascii):
 
 DEFAULT_CFG = {
     'n_top': (2, 6), 'max_depth': 2, 'p_block': 0.35, 'n_perturb': (0, 10), 'perturb_kinds': None,
-    'unique': False, 'p_nonascii': 0.1, 'max_lines': 60,
+    'unique': False, 'p_nonascii': 0.1, 'max_lines': 60, 'n_enrich': 0,
 }
 
 
@@ -565,6 +578,7 @@ def swarm_cfg(rng, **over):
         n_perturb=rng.choice([(0, 0), (0, 4), (2, 8), (4, 14)]),
         perturb_kinds=enabled,
         p_nonascii=rng.choice([0.0, 0.0, 0.1, 0.4]),
+        n_enrich=rng.choice([0, 0, 0, 1, 2, 4]),
     )
     if rng.random() < 0.3:
         # swarm 'focus' run: a small program built around one node class chosen uniformly from all classes the corpus
@@ -591,6 +605,8 @@ def gen_program(rng, cfg, stats=None):
         src = '\n'.join(parts) + '\n'
         if src.count('\n') > cfg['max_lines']:
             continue
+        if cfg.get('n_enrich'):
+            src = enrich(rng, src, cfg['n_enrich'], cfg.get('focus_cls'))
         base = try_parse(src)
         if base is None:
             continue
@@ -628,6 +644,49 @@ def gen_program(rng, cfg, stats=None):
             continue
         return src
     return 'a = b\n'
+
+
+ENRICH_EXPRS = [
+    'x and y and z', 'x or y or z', 'x < y < z', 'x is not y != z', 'x + y * z', 'x.y', 'x[y]', 'x(y)', 'x(y, z=w)',
+    'x(y, k=z, *w)', 'x(*y, k=z, **w)', 'x(k=y, *z, *w)', 'x if y else z', '[x, y, z]', '(x, y, z)', '{x: y, **z}',
+    '{x, y}', 'not x', '-x', 'x @ y', '(x)', '(x and y)', 'x[y:z]', 'x[y, z]', 'lambda y, z=w: x', '[x for y in z if w]',
+    "f'{x}{y!r}'", "'s' 't'", 'x(y)(z)', 'x.y.z', 'await x', 'x := y', '(x := y)', 'x not in y', 'x ** -y',
+    'x(y for y in z)', '{x: y for x, y in z}',
+]
+
+
+def enrich(rng, src, n, focus_cls=None):
+    """Structure enrichment (before the layout perturbations): replace up to `n` plain loaded names of the program by
+    compound expressions, so that every expression slot of every corpus statement (a with-item's context expression, a
+    call argument, a subscript, a decorator, a default ...) is sometimes a BoolOp / Compare / Call with keywords and
+    stars / comprehension.  The result only has to parse; where the replacement needs parentheses it gets them."""
+    for _ in range(n):
+        tree = try_parse(src)
+        if tree is None:
+            return src
+        skip = set()
+        for m in ast.walk(tree):
+            if isinstance(m, (ast.JoinedStr, ast.pattern)):
+                skip.update(id(x) for x in ast.walk(m))
+        cands = [m for m in ast.walk(tree) if isinstance(m, ast.Name) and isinstance(m.ctx, ast.Load) and id(m) not in skip]
+        if focus_cls and rng.random() < 0.7:
+            kids = {id(c) for q in ast.walk(tree) if q.__class__.__name__ == focus_cls for c in ast.walk(q) if c is not q}
+            cands = [m for m in cands if id(m) in kids] or cands
+        if not cands:
+            return src
+        m = rng.choice(cands)
+        new = rng.choice(ENRICH_EXPRS)
+        lines = src.split('\n')
+        ln = lines[m.lineno - 1]
+        bl = ln.encode()
+        a, b = len(bl[:m.col_offset].decode()), len(bl[:m.end_col_offset].decode())
+        for text in ((new, '(' + new + ')') if rng.random() < 0.7 else ('(' + new + ')',)):
+            cand = lines[:m.lineno - 1] + [ln[:a] + text + ln[b:]] + lines[m.lineno:]
+            cand = '\n'.join(cand)
+            if try_parse(cand) is not None and try_toks(cand):
+                src = cand
+                break
+    return src
 
 
 MB_PREFIXES = ['é; ', 'λ;', '"ü" ;  ', 'д = 1; ', "'🎉'; ", 'ä;\t']
